@@ -452,7 +452,13 @@ class RecocoIOLoop (Task):
             wlist.remove(worker)
 
         for worker in rlist:
-          worker._do_recv(self)
+          try:
+            worker._do_recv(self)
+          except Exception:
+            # A failure handling one worker's data shouldn't stop the others
+            log.exception("Exception while reading from %s", worker)
+            worker.close()
+            self._workers.discard(worker)
 
         for worker in wlist:
           worker._do_send(self)
